@@ -171,6 +171,17 @@ def table_o_shape(facts, rep, rule, w):
             rep.ob(rule, b.id, "%s: %s on translator(path)" % (op, eff), okp,
                    "translated path%s" % (" (src, dest in order)" if len(idxs) == 2 else "") if okp else
                    "the std call does not take translator(<own path argument>) %s" % ("in (src, dest) order" if len(idxs) == 2 else ""), line)
+    # the mandatory operations do not depend on which executor drives them: only move_dir (fallback signal) and the optional time
+    # setters may answer NotSupported — a remove_file routed through the runtime-bound blocking helper "is not supported" outside
+    # tokio and leaves the entry in the tree
+    for opn, bo in sorted(ops.items()):
+        if opn in ("move_dir", "set_creation_time", "set_modification_time", "set_access_time", "copy_file", "move_file"):
+            continue
+        kinds_o, _c = inter.kinds_and_calls(bo)
+        n += 1
+        rep.ob(rule, bo.id, "%s never answers NotSupported" % opn, "NotSupported" not in kinds_o, "" if "NotSupported" not in kinds_o else
+               "%s can answer NotSupported (through a helper that depends on the executor / platform): a mandatory operation fails on "
+               "some configurations and leaves its target as it was" % opn, bo.span)
     # exists is total: every failure of the probe (ENOTDIR below a file, EACCES, ...) means "not there", like the in-memory
     # backend's map lookup, which cannot fail
     b = ops.get("exists")
@@ -191,6 +202,17 @@ def table_o_shape(facts, rep, rule, w):
                 if inter.case_polarity(c) == "ok":
                     continue
                 kinds = [x[2] for x in walk(c) if x[0] == "agg" and x[1] == "error::VfsErrorKind"]
+                # `rename(..).map_err(|_| NotSupported.into())` as the tail: every error is what the closure builds
+                cm = c
+                while cm[0] == "await":
+                    cm = cm[1]
+                if cm[0] == "call" and cm[1] == "Result::map_err" and len(cm[2]) == 2 and strip(cm[2][1])[0] == "closure":
+                    fc = facts.body(strip(cm[2][1])[1])
+                    if fc is not None:
+                        kinds = []
+                        for ct2, _, _ in inter.ret_cases(fc):
+                            ks = [x[2] for x in walk(norm(ct2)) if x[0] == "agg" and x[1] == "error::VfsErrorKind"]
+                            kinds = ks if (ks == ["NotSupported"] and kinds in ([], ["NotSupported"])) else ["?"]
                 if kinds != ["NotSupported"]:
                     bad.append(fmt(c)[:60])
         n += 1
